@@ -101,6 +101,11 @@ fn diag_renders(e: &SemverError) -> bool {
     .is_ok()
 }
 
+/// the answer of an op, or `panic` if the crate panicked while computing it
+fn guarded(f: impl FnOnce() -> String) -> String {
+    quiet(f).unwrap_or_else(|_| "panic".into())
+}
+
 fn quiet<T>(f: impl FnOnce() -> T) -> Result<T, ()> {
     catch_unwind(AssertUnwindSafe(f)).map_err(|_| ())
 }
@@ -206,15 +211,15 @@ impl Out {
     }
 
     pub fn vdiff(&mut self, a: &Version, b: &Version) {
-        let ans = match a.diff(b) {
+        let ans = guarded(|| match a.diff(b) {
             None => "none".to_string(),
             Some(d) => d.to_string(),
-        };
+        });
         self.emit("vdiff", &[enc_version(a), enc_version(b)], ans);
     }
 
     pub fn vround(&mut self, t: &str) {
-        let ans = match Version::parse(t) {
+        let ans = guarded(|| match Version::parse(t) {
             Err(_) => "perr".to_string(),
             Ok(v) => {
                 let printed = v.to_string();
@@ -227,12 +232,27 @@ impl Out {
                     Err(e) => format!("reparse-{} printed_len={}", enc_kind(e.kind()), printed.len()),
                 }
             }
-        };
+        });
         self.emit("vround", &[hex(t)], ans);
     }
 
+    /// a version built from identifiers: print, parse back, compare all five fields, print again
+    pub fn vfround(&mut self, v: &Version) {
+        let printed = v.to_string();
+        let ans = guarded(|| match Version::parse(&printed) {
+            Ok(w) => format!(
+                "ok {} same={} fixed={}",
+                hex(&printed),
+                b01(enc_version(v) == enc_version(&w)),
+                b01(w.to_string() == printed)
+            ),
+            Err(e) => format!("reparse-{} printed_len={} {}", enc_kind(e.kind()), printed.len(), hex(&printed)),
+        });
+        self.emit("vfround", &[enc_version(v)], ans);
+    }
+
     pub fn serdev(&mut self, t: &str) {
-        let ans = match Version::parse(t) {
+        let ans = guarded(|| match Version::parse(t) {
             Err(_) => "perr".to_string(),
             Ok(v) => match serde_json::to_string(&v) {
                 Err(_) => "ser-fail".into(),
@@ -241,7 +261,7 @@ impl Out {
                     Err(_) => "deser-fail".into(),
                 },
             },
-        };
+        });
         self.emit("serdev", &[hex(t)], ans);
     }
 
@@ -270,7 +290,7 @@ impl Out {
     }
 
     pub fn rround(&mut self, t: &str) {
-        let ans = match Range::parse(t) {
+        let ans = guarded(|| match Range::parse(t) {
             Err(_) => "perr".to_string(),
             Ok(r) => match quiet(|| r.to_string()) {
                 Err(()) => "panic".into(),
@@ -279,12 +299,12 @@ impl Out {
                     Err(e) => format!("reparse-{}", enc_kind(e.kind())),
                 },
             },
-        };
+        });
         self.emit("rround", &[hex(t)], ans);
     }
 
     pub fn serder(&mut self, t: &str) {
-        let ans = match Range::parse(t) {
+        let ans = guarded(|| match Range::parse(t) {
             Err(_) => "perr".to_string(),
             Ok(r) => match quiet(|| serde_json::to_string(&r)) {
                 Err(()) => "panic".into(),
@@ -294,7 +314,7 @@ impl Out {
                     Err(_) => "deser-fail".into(),
                 },
             },
-        };
+        });
         self.emit("serder", &[hex(t)], ans);
     }
 
@@ -319,10 +339,10 @@ impl Out {
             }
         };
         let printed = |t: &str| -> String {
-            match Range::parse(t) {
+            guarded(|| match Range::parse(t) {
                 Ok(r) => hex(&r.to_string()),
                 Err(_) => "e".into(),
-            }
+            })
         };
         let ans = format!(
             "a={} b={} or={} ro={} and={} dna={} pa={} pb={}",
@@ -400,10 +420,14 @@ impl Out {
             None => true,
             Some(p) => vs.iter().any(|e| std::ptr::eq(e, p)),
         };
-        let mx = r.max_satisfying(vs);
-        let mn = r.min_satisfying(vs);
-        let a1 = if in_slice(mx) { show_version_opt(mx) } else { "not-an-element".into() };
-        let a2 = if in_slice(mn) { show_version_opt(mn) } else { "not-an-element".into() };
+        let a1 = guarded(|| {
+            let mx = r.max_satisfying(vs);
+            if in_slice(mx) { show_version_opt(mx) } else { "not-an-element".into() }
+        });
+        let a2 = guarded(|| {
+            let mn = r.min_satisfying(vs);
+            if in_slice(mn) { show_version_opt(mn) } else { "not-an-element".into() }
+        });
         self.emit("maxsat", &args, a1);
         self.emit("minsat", &args, a2);
     }
